@@ -502,6 +502,8 @@ type cookieCase struct {
 	SameSite                 int
 }
 
+const skipCookie = "SKIP: path decodes to a ';'"
+
 func checkCookie(cc *cookieCase) string {
 	var c protocol.Cookie
 	c.SetKey(cc.Key)
@@ -522,6 +524,12 @@ func checkCookie(cc *cookieCase) string {
 	c.SetSecure(cc.Secure)
 	c.SetSameSite(protocol.CookieSameSite(cc.SameSite))
 	c.SetPartitioned(cc.Part)
+	if bytes.IndexByte(c.Path(), ';') >= 0 {
+		// SetPath percent-decodes: "/%3b" is held as "/;". A ';' cannot be carried by a Set-Cookie
+		// attribute (RFC 6265 path-value excludes it and there is no escape), exactly like a ';' given
+		// directly, which the generators never produce: outside the domain, counted as excluded.
+		return skipCookie
+	}
 	s := append([]byte(nil), c.Cookie()...)
 	var p protocol.Cookie
 	if err := p.ParseBytes(s); err != nil {
@@ -636,7 +644,12 @@ func TestC17CookieRandom(t *testing.T) {
 		cc.Part = rapid.Bool().Draw(t, "partitioned")
 		cc.SameSite = rapid.IntRange(0, 4).Draw(t, "sameSite")
 		rec.Case(cc.MaxAge != 0 || cc.Expire != 0 || cc.SameSite != 0, ev.HashString(fmt.Sprintf("%+v", *cc)), "cookie")
-		if msg := checkCookie(cc); msg != "" {
+		msg := checkCookie(cc)
+		if msg == skipCookie {
+			rec.Excluded("cookie-path-that-percent-decodes-to-a-semicolon", 1)
+			return
+		}
+		if msg != "" {
 			t.Fatalf("%s", msg)
 		}
 		if rec.WantSample() {
